@@ -164,6 +164,8 @@ pub struct Ctx {
     pub excluded: BTreeMap<String, u64>,
     pub known_hits: BTreeMap<String, u64>,
     pub nontrivial: HashSet<u64>,
+    /// distinct non-trivial cases of enumerated phases (distinct by construction, counted not hashed)
+    pub distinct_extra: u64,
     pub samples: Vec<Value>,
     pub notes: BTreeMap<String, Value>,
     counting: bool,
@@ -182,6 +184,7 @@ impl Ctx {
             excluded: BTreeMap::new(),
             known_hits: BTreeMap::new(),
             nontrivial: HashSet::new(),
+            distinct_extra: 0,
             samples: Vec::new(),
             notes: BTreeMap::new(),
             counting: true,
@@ -244,6 +247,7 @@ impl Ctx {
             *self.known_hits.entry(k).or_insert(0) += v;
         }
         self.nontrivial.extend(o.nontrivial);
+        self.distinct_extra += o.distinct_extra;
         for s in o.samples {
             if self.samples.len() < 6 {
                 self.samples.push(s);
@@ -470,7 +474,7 @@ fn write_evidence<P: Property>(p: &P, args: &RunArgs, ctx: &Ctx, selftest: &Valu
     }
     let mut coverage = json!({
         "evaluations": ctx.evaluations,
-        "distinct_nontrivial": ctx.nontrivial.len(),
+        "distinct_nontrivial": ctx.nontrivial.len() as u64 + ctx.distinct_extra,
         "rule": p.rule(),
         "samples": samples,
         "classes": ctx.classes,
@@ -643,7 +647,7 @@ pub fn run_property<P: Property>(p: P, args: RunArgs) -> i32 {
                 args.tier.name(),
                 args.seed,
                 total.evaluations,
-                total.nontrivial.len(),
+                total.nontrivial.len() as u64 + total.distinct_extra,
                 wall
             ));
             0
